@@ -106,12 +106,22 @@ func checkC12(r *core.Run) {
 	registered := map[*types.Named]bool{}
 	for _, cs := range w.Calls(initFn) {
 		if cs.Static != nil && cs.Static.Name() == "RegisterCodec" && len(cs.Call.Args) == 2 {
+			var ts []types.Type
 			t := initFn.Pkg.TypesInfo.TypeOf(cs.Call.Args[1])
-			if p, ok := t.(*types.Pointer); ok {
-				t = p.Elem()
+			if _, isIface := t.Underlying().(*types.Interface); isIface {
+				// the element variable of a range over a list of codecs (a literal, or a function / variable of the
+				// package that yields one): every element is registered
+				ts = rangedElemTypes(w, initFn, cs.Call.Args[1])
+			} else {
+				ts = []types.Type{t}
 			}
-			if nt, ok := t.(*types.Named); ok {
-				registered[nt] = true
+			for _, t := range ts {
+				if p, ok := t.(*types.Pointer); ok {
+					t = p.Elem()
+				}
+				if nt, ok := t.(*types.Named); ok {
+					registered[nt] = true
+				}
 			}
 		}
 	}
@@ -310,12 +320,18 @@ func c12Frame(r *core.Run) {
 	r.Fn(dec)
 	// Encode: codec looked up by msg.GetTypeCode(); two bytes (hi, lo) of that code appended before the body
 	einfo := enc.Pkg.TypesInfo
-	var lookupArg, hiLo string
+	var lookupArg, hiLo, be16 string
 	ast.Inspect(enc.Decl.Body, func(n ast.Node) bool {
 		switch x := n.(type) {
 		case *ast.CallExpr:
 			if f := core.Callee(einfo, x); f != nil && f.Name() == "GetCodec" && len(x.Args) == 2 {
 				lookupArg = origin(enc, x.Args[1], 4)
+			}
+			// binary.BigEndian.AppendUint16(dst, code) / PutUint16(dst, code): the standard library's big-endian writer
+			if f := core.Callee(einfo, x); f != nil && f.Pkg() != nil && f.Pkg().Path() == "encoding/binary" && (f.Name() == "AppendUint16" || f.Name() == "PutUint16") && len(x.Args) == 2 {
+				if rn := core.RecvNamed(f); rn != nil && rn.Obj().Name() == "bigEndian" {
+					be16 = origin(enc, x.Args[1], 5)
+				}
 			}
 		case *ast.CompositeLit:
 			if t := einfo.TypeOf(x); t != nil && t.String() == "[]byte" && len(x.Elts) == 2 {
@@ -327,6 +343,9 @@ func c12Frame(r *core.Run) {
 	r.Sites++
 	r.Check(strings.Contains(lookupArg, "GetTypeCode("), "C12.frame", "pkg/protocol/codec.(CodecManager).Encode looks the codec up by the message's own type code", w.Pos(enc.Decl.Pos()), lookupArg, "the codec is looked up by "+lookupArg+", not by the message's GetTypeCode()")
 	okHL := strings.Contains(hiLo, ">> lit:8") && strings.Count(hiLo, "GetTypeCode(") >= 2 && strings.Index(hiLo, ">> lit:8") < strings.Index(hiLo, " , ")
+	if hiLo == "" && strings.Contains(be16, "GetTypeCode(") {
+		okHL, hiLo = true, "big-endian 16 bits of "+be16
+	}
 	r.Check(okHL, "C12.frame", "pkg/protocol/codec.(CodecManager).Encode prepends the type code big-endian", w.Pos(enc.Decl.Pos()), "[code>>8, code]", "the two bytes prepended to the body are {"+hiLo+"}, not the big-endian type code of the message")
 	// Decode: reads int16, dispatches, passes in[2:]
 	dinfo := dec.Pkg.TypesInfo
@@ -622,7 +641,8 @@ func c12Helpers(r *core.Run, rule string) {
 // readCopies: fn reads a length (or takes it as parameter lengthP), allocates make([]byte, length), fills it with
 // buf.Read and returns string(p); a return that delegates to a same-package function handing over the length is
 // followed (depth bounded). Returns "" when the pattern holds, else what deviates.
-func readCopies(w *core.World, f *core.FuncInfo, lengthP types.Object, depth int) string {
+func readCopies(w *core.World, f *core.FuncInfo, lengthP types.Object, depth int, bytesMode ...bool) string {
+	wantBytes := len(bytesMode) > 0 && bytesMode[0]
 	info := f.Pkg.TypesInfo
 	lengthV := lengthP
 	var bufV types.Object
@@ -676,11 +696,35 @@ func readCopies(w *core.World, f *core.FuncInfo, lengthP types.Object, depth int
 			if v := core.ConstVal(info, x.Results[0]); v != nil {
 				return true
 			}
+			if wantBytes && bufV != nil && isObj(info, x.Results[0], bufV) {
+				okRet = true // the freshly allocated buffer itself (the caller converts it)
+				return true
+			}
 			c, ok := ast.Unparen(x.Results[0]).(*ast.CallExpr)
 			if ok && len(c.Args) == 1 && bufV != nil && isObj(info, c.Args[0], bufV) {
 				if tv, ok := info.Types[c.Fun]; ok && tv.IsType() {
 					okRet = true
 					return true
+				}
+			}
+			// string(g(.. length ..)): g of the same package hands back a fresh buffer of exactly that length
+			if ok && len(c.Args) == 1 && depth > 0 && !wantBytes {
+				if tv, isConv := info.Types[c.Fun]; isConv && tv.IsType() {
+					if inner, isCall := ast.Unparen(c.Args[0]).(*ast.CallExpr); isCall {
+						if g := w.Info(core.Callee(info, inner)); g != nil && g.Pkg == f.Pkg {
+							gp := paramObjs(g)
+							for i, a := range inner.Args {
+								if sameLen(a) && i < len(gp) {
+									if sub := readCopies(w, g, gp[i], depth-1, true); sub == "" {
+										okMake, okRead, okRet = true, true, true
+									} else {
+										bad = core.ShortKey(g.Obj) + ": " + sub
+									}
+									return true
+								}
+							}
+						}
+					}
 				}
 			}
 			// delegation: g(.. length ..) in the same package
@@ -866,4 +910,57 @@ func boundingHelper(g *core.FuncInfo, limit constant.Value) (bool, string) {
 		}
 	}
 	return false, "helper " + g.Obj.Name() + ": no final return"
+}
+
+// rangedElemTypes: e is the element variable of a range over a list; the dynamic types of the list's elements when
+// the list is a composite literal, the result of a function of the package whose single return is one, or a
+// package-level variable initialised with one.
+func rangedElemTypes(w *core.World, fn *core.FuncInfo, e ast.Expr) []types.Type {
+	info := fn.Pkg.TypesInfo
+	v, ok := core.ObjOf(info, e).(*types.Var)
+	if !ok {
+		return nil
+	}
+	defs := localDefs(fn, v)
+	if len(defs) != 1 || !defs[0].rng {
+		return nil
+	}
+	var lit *ast.CompositeLit
+	litInfo := info
+	src := ast.Unparen(defs[0].rhs)
+	if id, isID := src.(*ast.Ident); isID {
+		if lv, isVar := info.Uses[id].(*types.Var); isVar && !isParam(fn, lv) && lv.Parent() != lv.Pkg().Scope() {
+			if ds := localDefs(fn, lv); len(ds) == 1 && !ds[0].rng {
+				src = ast.Unparen(ds[0].rhs)
+			}
+		}
+	}
+	switch x := src.(type) {
+	case *ast.CompositeLit:
+		lit = x
+	case *ast.CallExpr:
+		if g := w.Info(core.Callee(info, x)); g != nil && g.Decl.Body != nil {
+			var rets []*ast.ReturnStmt
+			ast.Inspect(g.Decl.Body, func(n ast.Node) bool {
+				if rs, ok := n.(*ast.ReturnStmt); ok {
+					rets = append(rets, rs)
+				}
+				return true
+			})
+			if len(rets) == 1 && len(rets[0].Results) == 1 {
+				lit = findCompositeLit(g, rets[0].Results[0])
+				litInfo = g.Pkg.TypesInfo
+			}
+		}
+	}
+	if lit == nil {
+		return nil
+	}
+	var out []types.Type
+	for _, el := range lit.Elts {
+		if t := litInfo.TypeOf(el); t != nil {
+			out = append(out, t)
+		}
+	}
+	return out
 }
